@@ -399,7 +399,8 @@ def check_directory(rep, wf, cls, open_eff):
                 c_, neg = c_[1], not neg
             return neg and c_[0] == 'call' and show(c_[1]) in ('os.path.exists', 'os.path.isdir', 'exists', 'isdir') and list(c_[2]) == [D]
         guarded = len(conds) == 1 and absent_test(*conds[0])
-        made.append((e, guarded or (not conds and exist_ok), conds, exist_ok))
+        deep = show(t[1]) in ('os.makedirs', 'makedirs') or (viapath and len(t) > 3 and dict(t[3]).get('parents') == TRUE)
+        made.append((e, guarded or (not conds and exist_ok), conds, exist_ok, deep, show(t)[:70]))
     if not made:
         # anything else that is handed the directory (pathlib, a helper, a try block) may create it: not judged
         other = []
@@ -430,8 +431,10 @@ def check_directory(rep, wf, cls, open_eff):
         rep.fail('C08.R3', w, 'the output directory is created when it does not exist yet, before the first file is opened', got='no os.makedirs(args.outputdirectory) on the path to open()',
                  want='if not os.path.exists(d): os.makedirs(d)', construct='%s output directory never created' % cls, loc=open_eff.loc)
         return
-    e, ok, conds, exist_ok = made[0]
+    e, ok, conds, exist_ok, deep, how = made[0]
     before = order.index(e) < order.index(open_eff) if (e in order and open_eff in order) else True
+    rep.check(deep, 'C08.R3', w, 'the output directory is created together with any missing parent directories (-o a/b/c is an accepted run)', got=how,
+              want='os.makedirs(d)   or   Path(d).mkdir(parents=True, ...)', construct='%s output directory created without its parents' % cls, loc=e.loc)
     rep.check(ok and before, 'C08.R3', w, 'the output directory is created exactly when it is absent, before the first file is opened',
               got='makedirs under %s%s%s' % ([('' if br else 'not ') + show(c_)[:60] for c_, br in conds] or 'no condition', ', exist_ok' if exist_ok else '', '' if before else ', after open()'),
               want='if not os.path.exists(d): os.makedirs(d)   or   os.makedirs(d, exist_ok=True)', construct='%s output directory creation' % cls, loc=e.loc)
